@@ -202,6 +202,12 @@ func VerifySignature(
 			return errorsmod.Wrap(errortypes.ErrUnknownExtensionOptions, "tx does not contain expected amount of extension options")
 		}
 
+		// non-critical extension options are not part of the signed EIP-712 payload,
+		// so anyone relaying the tx could add them (as SIGN_MODE_LEGACY_AMINO_JSON, reject them)
+		if len(txWithExtensions.GetNonCriticalExtensionOptions()) != 0 {
+			return errorsmod.Wrap(errortypes.ErrUnknownExtensionOptions, "EIP712 tx must not contain non-critical extension options")
+		}
+
 		extOpt, ok := opts[0].GetCachedValue().(*types.ExtensionOptionsWeb3Tx)
 		if !ok {
 			return errorsmod.Wrap(errortypes.ErrUnknownExtensionOptions, "unknown extension option")
